@@ -463,6 +463,38 @@ func ruleTK3(c *Ctx) *rule {
 	return r
 }
 
+// ---- TK6: a task's file inputs are its declared dependencies and nothing else -----------------------------------------------------
+
+func ruleTK6(c *Ctx) *rule {
+	r := &rule{ID: "TK6", Engine: "E3", Floor: 1,
+		Statement: "the file-input fields of a task (Task.FileDependencies, Task.GlobDependencies) are filled by task.New from the task's declared dependencies (TK2 judges how) and are written nowhere else in the module",
+		Necessity: "an input added behind the declaration (a project-wide file appended to every task) gives a task that declares no file dependency an input list: it is then recorded and reported skipped, although such a task must always run, and every other task's digest covers a file it never named"}
+	newF := c.fn("task", "New")
+	inNew := map[*ssa.Function]bool{}
+	for _, f := range closuresOf(newF) {
+		inNew[f] = true
+	}
+	n := 0
+	for _, field := range []string{"task.Task.FileDependencies", "task.Task.GlobDependencies"} {
+		for _, st := range c.fieldStores()[field] {
+			if _, direct := st.Addr.(*ssa.FieldAddr); !direct {
+				continue // a copy of a whole Task value moves the lists along, it does not change them
+			}
+			n++
+			key := fmt.Sprintf("%s store into %s", fname(st.Parent()), strings.TrimPrefix(field, "task.Task."))
+			if inNew[st.Parent()] {
+				r.ok(key, c.ipos(st), "filled by task.New")
+			} else {
+				r.bad(key, c.ipos(st), "a task's file inputs are changed after task.New built them from the declaration")
+			}
+		}
+	}
+	if n == 0 {
+		lost("no store into task.Task.FileDependencies / GlobDependencies found")
+	}
+	return r
+}
+
 func ruleTK4(c *Ctx) *rule {
 	r := &rule{ID: "TK4", Engine: "E2+E3", Floor: 1,
 		Statement: "Task.Commands has exactly one element per command of the syntax tree, in order: it is accumulated in the loop over ast.Task.Commands by one unconditional append per way round (error exits apart) of a value derived from that command's own text; it is never re-cut from expanded text",
